@@ -83,6 +83,7 @@ ChooseArray ==
 
 \* ph 1 -> 2: choose the index tuple (and the tolerance in the 1-D tolerance model)
 TolMenu(L) == {IxSc(v) : v \in (Lo(L) - 4)..(Hi(L) + 4)} \cup {IxLi(<<v, Hi(L) + 1>>) : v \in (Lo(L) - 3)..(Lo(L) + 1)}
+              \cup {IxLi(<<>>), IxLi(<<Lo(L) + 1>>), IxLi(<<Hi(L), Hi(L) - 1, Hi(L)>>), IxAll}
 ChooseIndex ==
   /\ ph = 1 /\ ph' = 2 /\ out' = out
   /\ IF in.mode = "tol"
